@@ -6,8 +6,9 @@
    versions are refuted at the end.  What is NOT proved here (only exercised by the trampoline
    run): that func_used_hard_regs contains every register the allocator used, the machine-code
    stubs, MXCSR/x87 preservation, alloca. *)
-From Coq Require Import List ZArith.
-From MirV Require Import C05.SysV C05.AbiImpl C05.AbiProofs C06.VaList C06.VaProofs C06.Frame C06.FrameProofs.
+From Coq Require Import List ZArith Lia.
+From MirV Require Import Base.W64 C05.SysV C05.AbiImpl C05.AbiProofs C05.Conv C05.ConvProofs C06.VaList C06.VaProofs C06.Frame C06.FrameProofs
+  C06.Alloca C06.AllocaProofs C06.CtlState C06.CtlStateProofs C06.CodeFacts gen.C05Abi.
 Import ListNotations.
 Local Open Scope Z_scope.
 
@@ -131,6 +132,142 @@ Theorem callee_saved_classification_eq_sysv : forall r, 0 <= r <= 15 ->
   /\ (fixed_reg r = true -> call_used r = true).
 Proof. exact classification. Qed.
 Print Assumptions callee_saved_classification_eq_sysv.
+
+(* ---- definitions regenerated from the checked tree on every run (gen/C05Abi.v) ---- *)
+
+(* the call-used test the prologue/epilogue loops and the allocator use (target_call_used_hard_reg_p,
+   translated from its C expression) is the one of the Frame model on every integer register, so
+   callee_saved_classification_eq_sysv and frame_saves_cover speak about the code's own test; the
+   register save area size, "alloca forces a frame pointer" and the frameless-leaf condition are
+   the code's as well *)
+Theorem frame_model_follows_source :
+  (forall r, 0 <= r <= 15 -> gen_call_used r = call_used r)
+  /\ (forall r, 0 <= r <= 15 ->
+        (sysv_callee_saved r = true -> gen_call_used r = false \/ r = SP \/ r = BP)
+        /\ (gen_call_used r = false -> sysv_callee_saved r = true /\ fixed_reg r = false))
+  /\ gen_reg_save_area_size = reg_save_area_size /\ gen_alloca_keeps_fp = true /\ gen_frameless_cond_ok = true.
+Proof.
+  split; [exact gen_call_used_eq|]. split; [|exact gen_frame_constants].
+  intros r H. rewrite (gen_call_used_eq r H). destruct (classification r H) as (A & B & _). split; assumption.
+Qed.
+Print Assumptions frame_model_follows_source.
+
+(* a MIR function observes each narrow integer parameter converted to its declared type, whatever
+   the caller left above the width of the type: generated code (extension prepended by
+   simplify_func) and interpreter (va_arg + cast in interp(), then the same extension); and it
+   returns each narrow integer result extended (make_one_ret) *)
+Theorem parameters_and_results_converted : forall t v,
+  ext_sem (mir_arg_ext t) v = Some (narrow t v)
+  /\ entry_sem (interp_entry t) v = Some (narrow t v)
+  /\ ext_sem (mir_arg_ext t) (narrow t v) = Some (narrow t v)
+  /\ ext_sem (mir_ret_ext t) v = Some (widen_result t v)
+  /\ (forall w, v mod 2 ^ ity_bits t = w mod 2 ^ ity_bits t -> narrow t v = narrow t w).
+Proof.
+  intros t v. split; [exact (mir_arg_ext_is_narrow t v)|]. split; [exact (interp_entry_is_narrow t v)|].
+  split; [rewrite mir_arg_ext_is_narrow, narrow_idem; reflexivity|]. split; [exact (mir_ret_ext_is_widen t v)|].
+  intros w H; exact (narrow_low_bits t v w H).
+Qed.
+Print Assumptions parameters_and_results_converted.
+
+(* the ALLOCA templates of the pattern table, executed on (rsp, size), lower rsp by the size rounded
+   up to 16 and return the new rsp -- register sizes below 2^32-15 (the template's lea is a 32-bit
+   one) and constant sizes (rounded by out_insn); bstart reads rsp, bend sets it *)
+Theorem alloca_templates_eq_model :
+  map fst gen_alloca_rows = [pat_r_r; pat_r_i2]
+  /\ (forall t sp r0 n, In (pat_r_r, t) gen_alloca_rows -> 0 <= n < 2 ^ 32 - 15 ->
+        trun t {| t_sp := sp; t_r0 := r0; t_op1 := n |}
+        = Some {| t_sp := sp - round16 n; t_r0 := sp - round16 n; t_op1 := n |})
+  /\ (forall t sp r0 n, In (pat_r_i2, t) gen_alloca_rows -> 0 <= n ->
+        trun t {| t_sp := sp; t_r0 := r0; t_op1 := imm_round gen_alloca_imm_add gen_alloca_imm_mask n |}
+        = Some {| t_sp := sp - round16 n; t_r0 := sp - round16 n;
+                  t_op1 := imm_round gen_alloca_imm_add gen_alloca_imm_mask n |})
+  /\ (forall sp r0 x, map (fun r => trun (snd r) {| t_sp := sp; t_r0 := r0; t_op1 := x |}) gen_bstart_rows
+                      = [Some {| t_sp := sp; t_r0 := sp; t_op1 := x |}])
+  /\ (forall sp r0 x, map (fun r => trun (snd r) {| t_sp := sp; t_r0 := r0; t_op1 := x |}) gen_bend_rows
+                      = [Some {| t_sp := r0; t_r0 := r0; t_op1 := x |}]).
+Proof.
+  split; [exact alloca_rows_patterns|]. split; [exact alloca_rr_sem|]. split; [exact alloca_ri_sem|]. exact bstart_bend_sem.
+Qed.
+Print Assumptions alloca_templates_eq_model.
+
+(* for EVERY history of allocas, calls with stack arguments, bstart and bend executed after the
+   prologue (rsp = F, 16-aligned: frame_sp_aligned): rsp stays 16-aligned, every live alloca block is
+   16-aligned, at least as large as requested, lies between rsp and the frame, overlaps no other live
+   block; the stack-argument area of any call lies below every live block and rsp is 16-aligned at
+   the call instruction *)
+Theorem alloca_memory_valid_and_aligned : forall F evs, F mod 16 = 0 -> Forall ev_wf evs ->
+  let s := arun evs (astate0 F) in
+  a_sp s mod 16 = 0 /\ a_sp s <= F
+  /\ (forall b, In b (a_blocks s) ->
+        a_sp s <= b_addr b /\ b_addr b + b_size b <= F /\ b_addr b mod 16 = 0 /\ 0 <= b_req b <= b_size b)
+  /\ ForallOrdPairs bdisjoint (a_blocks s)
+  /\ (forall k, ev_wf (ECall k) ->
+        call_rsp s k mod 16 = 0 /\ call_rsp s k + k <= F
+        /\ forall b, In b (a_blocks s) -> call_rsp s k + k <= b_addr b).
+Proof. exact alloca_live_blocks. Qed.
+Print Assumptions alloca_memory_valid_and_aligned.
+
+(* ... and stays valid until the function returns: a live block is still live, at the same address
+   with the same size, after any continuation that contains no bend; a bend with the value of a
+   pending bstart leaves exactly the blocks that were live at that bstart *)
+Theorem alloca_memory_stays_valid :
+  (forall evs s b, no_bend evs -> In b (a_blocks s) -> In b (a_blocks (arun evs s)))
+  /\ (forall s i m bl, nth_error (a_marks s) i = Some (m, bl) ->
+        a_sp (astep s (EBend i)) = m /\ a_blocks (astep s (EBend i)) = bl)
+  /\ (forall s, a_marks (astep s EBstart) = (a_sp s, a_blocks s) :: a_marks s).
+Proof. split; [exact arun_keeps|]. split; [exact bend_restores|exact bstart_records]. Qed.
+Print Assumptions alloca_memory_stays_valid.
+
+Example alloca_history_example :
+  let s := arun [EAlloca 100; ECall 32; EBstart; EAlloca 1; EBend 0; EAlloca 333] (astate0 4096) in
+  a_sp s = 4096 - 112 - 336 /\ length (a_blocks s) = 2%nat /\ Forall ev_wf [EAlloca 100; ECall 32; EBstart; EAlloca 1; EBend 0; EAlloca 333].
+Proof.
+  split; [vm_compute; reflexivity|]. split; [vm_compute; reflexivity|].
+  repeat (apply Forall_cons; [cbn [ev_wf]; first [exact I|split; [lia|reflexivity]|lia]|]). apply Forall_nil.
+Qed.
+
+(* constant allocas merged into one block by mir.c (adjacent allocas in simplify_func, top allocas of
+   inlined callees in process_inlines), with fixes/C06-3.patch: every block starts at an offset that
+   is a multiple of its own alignment (1, 2, 4, 8 or 16 by size), blocks do not overlap and fit into
+   the merged size; the merged block itself is a 16-aligned alloca (above) *)
+Theorem merged_allocas_placed : forall sizes,
+  let '(l, tot) := merge true sizes in
+  placed 0 l tot
+  /\ map (fun x => snd (fst x)) l = map (fun s => fst (alloca_size_align s)) sizes
+  /\ map snd l = map (fun s => snd (alloca_size_align s)) sizes.
+Proof.
+  intros sizes. pose proof (merge_placed sizes) as P. pose proof (merge_sizes true sizes 0 0) as S.
+  unfold merge in *. destruct (merge_from true 0 0 sizes) as [l tot]. cbn [fst] in S. split; [exact P|exact S].
+Qed.
+Print Assumptions merged_allocas_placed.
+
+(* the rule of the pinned commit (offset rounded only when the alignment grows) is refuted:
+   allocas of 16, 1, 8 bytes put the 8-byte block at offset 17 -- replayed by ./check C06 *)
+Theorem merged_allocas_head_refuted : exists sizes, ~ (let '(l, tot) := merge false sizes in placed 0 l tot).
+Proof. exact merge_head_refuted. Qed.
+Print Assumptions merged_allocas_head_refuted.
+
+(* no instruction template of the generator and no hand-written stub writes MXCSR, the x87 control
+   word or the direction flag (ldmxcsr, fxrstor, xrstor, fldcw, fldenv, fninit, frstor, emms, std):
+   with C functions (builtins, interpreter) preserving them by their own ABI conformance, the
+   control state a native caller set is the one it finds on return *)
+Theorem control_state_never_written :
+  (forall row ins, In row gen_patterns -> In ins (snd row) -> insn_writes_ctl ins = false)
+  /\ (forall s, In s gen_stubs -> bytes_write_ctl s = false).
+Proof. split; [exact no_template_writes_ctl|exact no_stub_writes_ctl]. Qed.
+Print Assumptions control_state_never_written.
+
+Theorem control_state_check_nonvacuous :
+  (500 < length gen_patterns)%nat /\ (20 < length gen_stubs)%nat
+  /\ insn_writes_ctl [KB 15; KB 174; KS 2; KO] = true
+  /\ insn_writes_ctl [KB 217; KS 5; KO] = true
+  /\ insn_writes_ctl [KB 217; KS 0; KO] = false
+  /\ insn_writes_ctl [KB 219; KS 7; KO] = false
+  /\ bytes_write_ctl [72; 15; 174; 84; 36; 8] = true
+  /\ bytes_write_ctl [217; 108; 36; 4] = true
+  /\ bytes_write_ctl [217; 201] = false.
+Proof. exact ctl_nonvacuous. Qed.
+Print Assumptions control_state_check_nonvacuous.
 
 (* KNOWN FINDING c06:sret-rax (recorded, not repaired): the psABI also requires a function that
    returns an aggregate in memory to hand the block address back in rax.  MIR's result lowering
